@@ -1083,7 +1083,10 @@ def parse(
             conn.commit()
         try:
             tree = pickle.loads(pickled_data)
-        except pickle.UnpicklingError:
+        except Exception:
+            # A damaged or outdated entry can fail in many ways besides
+            # UnpicklingError (EOFError on a truncated entry, ImportError or
+            # AttributeError when a pickled class is gone, ...).
             logger.warning(f"Model with hash '{txt_hash}' ({pymoca_version}) failed to unpickle")
     else:
         logger.debug(f"Model with hash '{txt_hash}' ({pymoca_version}) not in cache")
